@@ -180,6 +180,15 @@ static void sub_coupled() {
           roworder(c, "cpr_drs<amg,spai0>", A, Ash, [&](const Csr<double> &M) { return std::unique_ptr<P>(new P(M.tie(), prm)); }, r); }
         if (idx % 2 == 0) { typedef preconditioner::cpr<AMG, SPI> P; typename P::params prm; prm.block_size = b; prm.pprecond.coarse_enough = 8;
           roworder(c, "cpr<amg,ilu0>", A, Ash, [&](const Csr<double> &M) { return std::unique_ptr<P>(new P(M.tie(), prm)); }, r); }
+        // partial_update(): built from the sorted matrix, then updated with the (mildly rescaled) matrix under test, sorted resp. shuffled --
+        // the matrix handed to partial_update is a user matrix too.  (added after a seeded change dropped the sort there)
+        { Csr<double> Ap = A, Apsh = Ash; for (auto &v : Ap.val) v *= 1.25; for (auto &v : Apsh.val) v *= 1.25;
+          { typedef preconditioner::cpr<AMG, SP0> P; typename P::params prm; prm.block_size = b; prm.pprecond.coarse_enough = 8;
+            roworder(c, "cpr.partial_update<amg,spai0>", Ap, Apsh, [&](const Csr<double> &M) { std::unique_ptr<P> q(new P(A.tie(), prm)); q->partial_update(M.tie(), true); return q; }, r); }
+          { typedef preconditioner::cpr_drs<AMG, SP0> P; typename P::params prm; prm.block_size = b; prm.pprecond.coarse_enough = 8;
+            roworder(c, "cpr_drs.partial_update<amg,spai0>", Ap, Apsh, [&](const Csr<double> &M) { std::unique_ptr<P> q(new P(A.tie(), prm)); q->partial_update(M.tie(), true); return q; }, r); }
+          if (idx % 2 == 1) { typedef preconditioner::cpr<AMG, SPI> P; typename P::params prm; prm.block_size = b; prm.pprecond.coarse_enough = 8;
+            roworder(c, "cpr.partial_update<amg,ilu0>", Ap, Apsh, [&](const Csr<double> &M) { std::unique_ptr<P> q(new P(A.tie(), prm)); q->partial_update(M.tie(), idx % 4 == 1); return q; }, r); } }
         { typedef make_solver<AMG, solver::preonly<B>> US; typedef make_solver<SP0, solver::preonly<B>> PS; typedef preconditioner::schur_pressure_correction<US, PS> P;
           for (int type = 1; type <= 2; ++type) { typename P::params prm; prm.type = type; prm.approx_schur = (idx / 2) % 2; prm.adjust_p = (int)((idx / 4) % 3); prm.pmask.assign(n, 0); for (size_t i = 0; i < n; ++i) prm.pmask[i] = (i % b == (size_t)(b - 1)); prm.usolver.precond.coarse_enough = 8;
             roworder(c, "schur_pressure_correction<type" + std::to_string(type) + ">", A, Ash, [&](const Csr<double> &M) { return std::unique_ptr<P>(new P(M.tie(), prm)); }, r); } }
